@@ -54,12 +54,12 @@ pub fn tokenize(source: &str, file_id: &FileId) -> (Vec<Token>, Vec<Diagnostic>)
                                     col = 0;
                                 }
                                 _ => {
-                                    col += 0;
+                                    col += 1;
                                 }
                             }
                         }
                     }
-                    _ => col += lexer.span().len(),
+                    _ => col += lexer.slice().chars().count(),
                 }
             }
             Err(_) => {
@@ -78,7 +78,9 @@ pub fn tokenize(source: &str, file_id: &FileId) -> (Vec<Token>, Vec<Diagnostic>)
                             col + 1,
                         ),
                     ),
-                ))
+                ));
+                // Text that is not a token still occupies columns on the line
+                col += lexer.slice().chars().count();
             }
         }
     }
